@@ -94,6 +94,8 @@ type State struct {
 	known   map[string]uint64
 	factsShared bool
 	tainted map[*Obj]bool
+	pcTag   []string // parallel to pc: "invN" for an assumed loop invariant, "" otherwise
+	curTag  string
 }
 
 func (s *State) clone() *State {
@@ -122,6 +124,7 @@ func (s *State) clone() *State {
 	}
 	n.heap = s.heap.clone()
 	n.pc = append([]*Term(nil), s.pc...)
+	n.pcTag = append([]string(nil), s.pcTag...)
 	n.cands = append([]cand(nil), s.cands...)
 	n.candSet = make(map[string]bool, len(s.candSet))
 	for k := range s.candSet {
@@ -150,6 +153,7 @@ func (s *State) assume(t *Term) {
 		return
 	}
 	s.pc = append(s.pc, t)
+	s.pcTag = append(s.pcTag, s.curTag)
 	s.learn(t, true, 0)
 }
 
@@ -327,6 +331,8 @@ type Exec struct {
 	rangeApps   []*rangeApp
 	rangeAxioms []rangeAxiom
 	curLoop     *loopInfo
+	selRoots    []map[string]bool
+	uses        []int // when non-nil: only these loop invariants are kept as hypotheses of the obligation being built
 }
 
 func posOf(in ssa.Instruction) token.Pos {
@@ -1200,10 +1206,12 @@ func (e *Exec) loopEnter(s *State, f *Frame, li *loopInfo, from *ssa.BasicBlock)
 	s.trace = append(s.trace, fmt.Sprintf("enter %s (state havoc'd to an arbitrary iteration)", key))
 	if lc != nil {
 		// block pointer must be at the header for expression evaluation of cells: cells are heap objects, fine.
-		for _, inv := range lc.Invariants {
+		for i, inv := range lc.Invariants {
 			var g *Term
 			e.withPol(-1, func() { g = e.evalClause(s, f, inv, nil) })
+			s.curTag = fmt.Sprintf("inv%d", i+1)
 			s.assume(g)
+			s.curTag = ""
 		}
 		if lc.Decreases != nil {
 			v := e.evalClauseVal(s, f, lc.Decreases, nil).(*Term)
@@ -1286,7 +1294,9 @@ func (e *Exec) loopBack(s *State, f *Frame, li *loopInfo) {
 	for i, inv := range lc.Invariants {
 		var g *Term
 		e.withPol(1, func() { g = e.evalClause(s, f, inv, nil) })
+		e.uses = inv.Uses
 		e.emit(s, fmt.Sprintf("%s.inv.%d.preserved", prefix, i+1), g, inv.Pos)
+		e.uses = nil
 	}
 	if lc.Decreases != nil {
 		nv := e.evalClauseVal(s, f, lc.Decreases, nil).(*Term)
